@@ -47,54 +47,54 @@ fn exec_faulted(c: &Case, st: &mut Stats) -> Result<ExecOk, Fail> {
     st.add("fault_interrupted_writes_delivered", w.interrupted as u64);
     st.inc("sink_fault_histories");
     if let Some(p) = &w.panic {
-        fail!("writer-panic-after-sink-error", "{}
- calls: {}
- sink script: {}", p, describe(&c.ops), c.wscript.to_j());
+        fail!("writer-panic-after-sink-error", "{}\n calls: {}\n sink script: {}", p, describe(&c.ops), c.wscript.to_j());
     }
-    let Some(f) = w.failures.first() else {
-        // only Interrupted (or nothing) was delivered. No property says that Interrupted must be retried, so a visible
-        // difference is counted, not judged; what was handed over must still be a prefix of the fault-free output.
-        if w.results != w0.results || w.into_inner != w0.into_inner || w.out != w0.out {
-            st.inc("observed_interrupted_write_visible");
-            if w.out.len() > w0.out.len() || w.out[..] != w0.out[..w.out.len()] {
-                fail!("altered-before-sink-error", "after Interrupted the destination holds bytes that are not a prefix of the fault-free output; calls: {}; sink script: {}", describe(&c.ops), c.wscript.to_j());
-            }
-            return Ok(ExecOk { nontrivial: w.interrupted > 0 });
-        }
-        if w.interrupted > 0 {
-            st.inc("probe_interrupted_write_retried");
-        }
-        return Ok(ExecOk { nontrivial: w.interrupted > 0 });
+    // the first fault of ANY kind that the sink delivered (an Interrupted counts: nothing says it is retried), the call
+    // during which it happened (ops.len() = the final into_inner), and what the sink held at that moment
+    let first_hard = w.failures.first().map(|f| (f.out_len, (0..c.ops.len()).find(|i| w.failures_after[*i] >= 1).unwrap_or(c.ops.len())));
+    let first_int = w.interrupts_at.first().map(|l| (*l, (0..c.ops.len()).find(|i| w.interrupts_after[*i] >= 1).unwrap_or(c.ops.len())));
+    let first = match (first_hard, first_int) {
+        (Some(a), Some(b)) => Some(if b.1 < a.1 || (b.1 == a.1 && b.0 <= a.0) { b } else { a }),
+        (a, b) => a.or(b),
     };
-    st.inc(match (f.in_flush, f.token) {
-        (true, _) => "fault_flush_error_delivered",
-        (false, 0) => "fault_write_zero_delivered",
-        _ => "fault_write_error_delivered",
-    });
-    // the call during which the sink failed (ops.len() = the final flush of into_inner)
-    let at = (0..c.ops.len()).find(|i| w.failures_after[*i] >= 1).unwrap_or(c.ops.len());
+    let Some((held, at)) = first else {
+        // no scripted fault was reached: the run is the fault-free run
+        if w.results != w0.results || w.out != w0.out {
+            fail!("differs-before-sink-error", "no fault was delivered, yet the run differs from the fault-free one\n calls: {}\n sink script: {}", describe(&c.ops), c.wscript.to_j());
+        }
+        return Ok(ExecOk { nontrivial: false });
+    };
     for i in 0..at {
         if w.results[i] != w0.results[i] || w.delivered_after[i] != w0.delivered_after[i] {
-            fail!("differs-before-sink-error", "call {} ({}) happened before the sink failed, yet gives {:?} / {} bytes delivered instead of {:?} / {}
- calls: {}
- sink script: {}", i, c.ops[i].short(), w.results[i], w.delivered_after[i], w0.results[i], w0.delivered_after[i], describe(&c.ops), c.wscript.to_j());
+            fail!("differs-before-sink-error", "call {} ({}) happened before the sink failed, yet gives {:?} / {} bytes delivered instead of {:?} / {}\n calls: {}\n sink script: {}", i, c.ops[i].short(), w.results[i], w.delivered_after[i], w0.results[i], w0.delivered_after[i], describe(&c.ops), c.wscript.to_j());
         }
     }
-    if f.out_len > w0.out.len() || w.out.len() < f.out_len || w.out[..f.out_len] != w0.out[..f.out_len] {
-        fail!("altered-before-sink-error", "the {} bytes the sink held when it failed are not a prefix of the fault-free output
- calls: {}
- sink script: {}", f.out_len, describe(&c.ops), c.wscript.to_j());
+    if held > w0.out.len() || w.out.len() < held || w.out[..held] != w0.out[..held] {
+        fail!("altered-before-sink-error", "the {} bytes the sink held when it first failed are not a prefix of the fault-free output\n calls: {}\n sink script: {}", held, describe(&c.ops), c.wscript.to_j());
     }
-    let got = if at < c.ops.len() { w.results[at].clone() } else { w.into_inner.clone().unwrap_or(Ok(())) };
-    match &got {
-        Err(WErrV::Write { kind, token }) if *kind == f.kind && *token == f.token => {
-            st.inc("probe_sink_error_carried");
+    // counted, not judged: is Interrupted invisible, is a real failure reported by the call it happened in
+    if w.failures.is_empty() {
+        if w.results == w0.results && w.into_inner == w0.into_inner && w.out == w0.out {
+            st.inc("probe_interrupted_write_retried");
+        } else {
+            st.inc("observed_interrupted_write_visible");
         }
-        // no property says how (or that) a sink error is reported: counted, not judged
-        _ => st.inc("observed_sink_error_not_reported_by_the_failing_call"),
-    }
-    if at < c.ops.len() {
-        st.inc("probe_calls_continued_after_sink_error");
+    } else {
+        let f = &w.failures[0];
+        st.inc(match (f.in_flush, f.token) {
+            (true, _) => "fault_flush_error_delivered",
+            (false, 0) => "fault_write_zero_delivered",
+            _ => "fault_write_error_delivered",
+        });
+        let fat = (0..c.ops.len()).find(|i| w.failures_after[*i] >= 1).unwrap_or(c.ops.len());
+        let got = if fat < c.ops.len() { w.results[fat].clone() } else { w.into_inner.clone().unwrap_or(Ok(())) };
+        match &got {
+            Err(WErrV::Write { kind, token }) if *kind == f.kind && *token == f.token => st.inc("probe_sink_error_carried"),
+            _ => st.inc("observed_sink_error_not_reported_by_the_failing_call"),
+        }
+        if fat < c.ops.len() {
+            st.inc("probe_calls_continued_after_sink_error");
+        }
     }
     Ok(ExecOk { nontrivial: true })
 }
@@ -239,7 +239,10 @@ impl Check for C10 {
             if w.results[i].is_err() {
                 let before = if i == 0 { 0 } else { w.delivered_after[i - 1] };
                 if w.delivered_after[i] != before {
-                    fail!("rejected-call-delivered-bytes", "call {} ({}) was rejected but the destination grew from {} to {} bytes\n calls: {}", i, all_ops[i].short(), before, w.delivered_after[i], describe(all_ops));
+                    // a rejected call may hand over bytes that were accepted earlier and still pending (the header of an
+                    // unknown-size Start): neither C10 nor C19 fixes when those leave. That what the destination holds
+                    // stays a prefix of the final output is checked below, for every instant. Counted only.
+                    st.inc("observed_rejected_call_handed_over_pending_bytes");
                 }
             }
         }
